@@ -46,6 +46,11 @@ func NewGeometry(g orb.Geometry) *Geometry {
 // Geometry returns the orb.Geometry for the geojson Geometry.
 // This will convert the "Geometries" into a orb.Collection if applicable.
 func (g *Geometry) Geometry() orb.Geometry {
+	if g == nil {
+		// a null member, e.g. of "geometries", is a nil geometry
+		return nil
+	}
+
 	if g.Coordinates != nil {
 		return g.Coordinates
 	}
